@@ -336,8 +336,73 @@ class Flattener:
         return s
 
 
+class _Positionalise(ast.NodeTransformer):
+    """keyword arguments of calls to repository functions (resolved through the caller's scope) become positional, constant
+    defaults in between are filled in: `get_lookup(net, pit_type="node", lookup_type="index")` is `get_lookup(net, "node", "index")`
+    for every rule that reads argument positions"""
+
+    def __init__(self, ix, fi):
+        self.ix, self.fi = ix, fi
+        self.changed = False
+
+    def visit_Call(self, node):
+        self.generic_visit(node)
+        if not any(k.arg is not None for k in node.keywords) or any(isinstance(a, ast.Starred) for a in node.args):
+            return node
+        f = node.func
+        if not isinstance(f, ast.Name):
+            return node
+        try:
+            r = self.ix.resolve_in(self.fi, f.id)
+        except Exception:
+            return node
+        if not r or r[0] != "func":
+            return node
+        g = r[1].raw_node
+        a = g.args
+        if a.vararg is not None or not isinstance(g, ast.FunctionDef):
+            return node
+        pos = a.posonlyargs + a.args
+        names = [p_.arg for p_ in pos]
+        defaults = {}
+        for p_, d in zip(reversed(pos), reversed(a.defaults)):
+            if isinstance(d, ast.Constant):
+                defaults[p_.arg] = d
+        kw = {k.arg: k.value for k in node.keywords if k.arg is not None}
+        out = list(node.args)
+        k = len(out)
+        while k < len(names) and kw:
+            nm = names[k]
+            if nm in kw:
+                out.append(kw.pop(nm))
+            elif nm in defaults and any(n2 in kw for n2 in names[k + 1:]):
+                out.append(copy.deepcopy(defaults[nm]))
+            else:
+                break
+            k += 1
+        if len(out) == len(node.args):
+            return node
+        self.changed = True
+        node.args = out
+        node.keywords = [kk for kk in node.keywords if kk.arg is None or kk.arg in kw]
+        return node
+
+
 def flatten_function(ix, fi, depth=0, stack=()):
-    """flattened copy of fi's syntax tree (the raw tree itself when nothing is substituted)"""
+    """normalised copy of fi's syntax tree (the raw tree itself when nothing changes): helpers substituted, keyword arguments
+    of calls to repository functions bound to positions"""
+    raw = _flatten_helpers(ix, fi, depth, stack)
+    if any(isinstance(n, ast.Call) and n.keywords for n in ast.walk(raw)):
+        node = copy.deepcopy(raw) if raw is fi.raw_node else raw
+        t = _Positionalise(ix, fi)
+        node = t.visit(node)
+        if t.changed:
+            ast.fix_missing_locations(node)
+            return node
+    return raw
+
+
+def _flatten_helpers(ix, fi, depth=0, stack=()):
     raw = fi.raw_node
     body = raw.body
     local_defs = {s.name: s for s in body if isinstance(s, ast.FunctionDef)}
